@@ -5,11 +5,28 @@ Import ListNotations.
 From NV Require Import lib.Bytes lib.Corr gen.Consts_UdpSplit model.UdpSplit.
 Open Scope N_scope.
 
+(* byte strings are written as lower-case hex string literals (far cheaper for coqc to read than lists of numerals) *)
+Definition hexval (a : Ascii.ascii) : N :=
+  let n := Ascii.N_of_ascii a in if n <? 58 then n - 48 else n - 87.
+Fixpoint unhex (s : String.string) : list N :=
+  match s with
+  | String.String a (String.String b r) => (16 * hexval a + hexval b) :: unhex r
+  | _ => []
+  end.
+
 Inductive case :=
-| CSplit (p : list N) (seg : Z) (pieces : list (list N)) (alias_ok panicked : bool)
-    (* pieces = copies of the slices deliverSegments handed to its callback, in call order *)
-| CCmsg (buf : list N) (gso : Z) (panicked : bool).
+| CSplit (p : String.string) (seg : Z) (lens : list N) (content_ok panicked : bool)
+    (* lens = lengths of the slices deliverSegments handed to its callback, in call order; content_ok = every
+       slice was byte-for-byte payload[off:off+len] at the running offset off (checked by the shim) *)
+| CCmsg (buf : String.string) (gso : Z) (panicked : bool).
     (* gso = parseRecvCmsg's result on a control buffer holding exactly buf *)
+
+(* the observed pieces, rebuilt from their lengths (meaningful when content_ok) *)
+Fixpoint cut (p : list N) (lens : list N) : list (list N) :=
+  match lens with
+  | [] => []
+  | l :: r => firstn (N.to_nat l) p :: cut (skipn (N.to_nat l) p) r
+  end.
 
 Definition pieces_eqb := list_eqb nlist_eqb.
 
@@ -33,10 +50,16 @@ Definition split_spec_ok (p : list N) (seg : Z) (pieces : list (list N)) : bool 
 
 Definition check_case (c : case) : list N :=
   match c with
-  | CSplit p seg pieces _ panicked =>
-      flag 1 (option_eqb pieces_eqb (deliver_segments p seg) (Some pieces))
-      ++ flag 2 (split_spec_ok p seg pieces && negb panicked)
-  | CCmsg buf gso panicked =>
+  | CSplit ps seg lens content_ok panicked =>
+      let p := unhex ps in
+      let pieces := cut p lens in
+      (* the lengths must be those of real slices of the payload; content_ok says the bytes were those slices *)
+      let observed_ok := content_ok && negb panicked
+                         && nlist_eqb (map (fun x => N.of_nat (length x)) pieces) lens in
+      flag 1 (option_eqb pieces_eqb (deliver_segments p seg) (Some pieces) && observed_ok)
+      ++ flag 2 (split_spec_ok p seg pieces && observed_ok)
+  | CCmsg bs gso panicked =>
+      let buf := unhex bs in
       match parse_recv_cmsg buf with
       | Some (g, oob) => flag 1 (g =? gso)%Z ++ flag 2 (negb oob && negb panicked)
       | None => [1; 2]
